@@ -13,6 +13,7 @@ Universe == CASE Kind = "u06" -> U06
               [] Kind = "namesA" -> NamesA
               [] Kind = "texts" -> Texts
               [] Kind = "ctl" -> CtlNames
+              [] Kind = "tokpairs" -> TokPairs
               [] Kind = "strnames" -> StrNames
               [] Kind = "wires" -> PlainCases
               [] Kind = "segs" -> SegCases
